@@ -109,3 +109,116 @@ func VerifC04Tampered() {
 	vstub.WaitIdle()
 	vstub.Assert(inLog(a, victim), "C04/C10 the untampered original still replicates afterwards")
 }
+
+// onlyOwn asserts that everything the store lists, heads or serves belongs to its own database.
+func onlyOwn(b *BaseStore, when string) {
+	for _, e := range b.OpLog().Values().Slice() {
+		vstub.Assert(e.GetLogID() == b.id, "C04 an entry written for another database is never listed ("+when+")")
+	}
+	for _, e := range b.OpLog().Heads().Slice() {
+		vstub.Assert(e.GetLogID() == b.id, "C04 an entry written for another database never becomes a head ("+when+")")
+	}
+	for _, e := range b.Index().Get("").([]ipfslog.Entry) {
+		vstub.Assert(e.GetLogID() == b.id, "C04 an entry written for another database is never served ("+when+")")
+	}
+}
+
+// VerifC04ForeignChain: a VALID entry of an authorised writer of database A
+// links (through refs, next, or both) to the head of a chain of F entries that
+// were written - validly - for ANOTHER database B.  However the entry reaches a
+// replica of A (announced head; then restart + load from its own disk, where
+// the whole ancestry is fetched as ONE log; or a fresh replica synced from it),
+// no entry of B is ever listed, becomes a head or is served, and A's valid
+// entries stay.
+func VerifC04ForeignChain() {
+	maxF := vstub.Param("F", 3)
+	blocks := vstub.NewBlocks(nil)
+	prov := vstub.NewProvider()
+	w := vstub.NewIdentity("w", prov)
+	ac := vstubodb.Writers("id-a", "id-w")
+	a, env := openAC("a", blocks, ac)
+	if a == nil {
+		return
+	}
+	ctx := context.Background()
+	lw, honest := appendAs(env, nil, a.id, w, []byte("honest"))
+	if honest == nil {
+		return
+	}
+	_ = lw
+	// database B: a chain of F entries by the same writer (valid there)
+	f := 1 + vstub.NdChoice("foreign-len", maxF)
+	var lb *ipfslog.IPFSLog
+	var foreignHead ipfslog.Entry
+	for k := 0; k < f; k++ {
+		lb, foreignHead = appendAs(env, lb, "/orbitdb/other/db", w, []byte{'f', byte('0' + k)})
+		if foreignHead == nil {
+			return
+		}
+	}
+	next := []cid.Cid{honest.GetHash()}
+	refs := []cid.Cid{}
+	switch vstub.NdChoice("link", 3) {
+	case 0:
+		refs = []cid.Cid{foreignHead.GetHash()}
+		vstub.Cover("via-refs")
+	case 1:
+		next = []cid.Cid{honest.GetHash(), foreignHead.GetHash()}
+		vstub.Cover("via-next")
+	case 2:
+		next = []cid.Cid{foreignHead.GetHash(), honest.GetHash()}
+		refs = []cid.Cid{foreignHead.GetHash()}
+		vstub.Cover("via-next")
+	}
+	top, err := entry.CreateEntryWithIO(ctx, env.IPFS, w, &entry.Entry{
+		LogID: a.id, Payload: []byte("top"), Next: next, Refs: refs,
+		Clock: entry.NewLamportClock(w.PublicKey, foreignHead.GetClock().GetTime()+1),
+	}, nil, env.IO)
+	if err != nil {
+		vstub.Fail("C04 CreateEntryWithIO failed")
+		return
+	}
+	_ = a.Sync(ctx, []ipfslog.Entry{top.Copy()})
+	vstub.WaitIdle()
+	onlyOwn(a, "after replication")
+	vstub.Assert(inLog(a, honest), "C04 valid entries are merged although a sibling link leads to another database")
+
+	switch vstub.NdChoice("then", 3) {
+	case 0:
+	case 1:
+		// restart: the whole ancestry of the cached heads is fetched as one log
+		_ = a.Close()
+		vstub.WaitIdle()
+		env2 := vstubodb.NewEnv("a", 1, "db", blocks, nil)
+		env2.Cache = env.Cache
+		opts := env2.Options(false)
+		opts.AccessController = ac
+		r := &BaseStore{}
+		if err := r.InitBaseStore(env2.IPFS, env2.Identity, env2.Addr, opts); err != nil {
+			vstub.Fail("InitBaseStore failed")
+			return
+		}
+		if err := r.Load(ctx, -1); err != nil {
+			vstub.Fail("C04 Load after restart failed")
+			return
+		}
+		vstub.WaitIdle()
+		vstub.Cover("restarted")
+		onlyOwn(r, "after restart and load")
+		vstub.Assert(inLog(r, honest), "C04 valid entries are still there after restart and load")
+	case 2:
+		// a fresh replica receives a's heads
+		r, _ := openAC("r", blocks, ac)
+		if r == nil {
+			return
+		}
+		var heads []ipfslog.Entry
+		for _, h := range a.OpLog().Heads().Slice() {
+			heads = append(heads, h.Copy())
+		}
+		_ = r.Sync(ctx, heads)
+		vstub.WaitIdle()
+		vstub.Cover("relayed")
+		onlyOwn(r, "on a replica synced from this one")
+	}
+}
